@@ -485,8 +485,11 @@ class ModuleVistor(NodeVisitor):
             target_obj = self.builder.current.contents.get(target)
             if isinstance(target_obj, model.Function):
 
-                # _handleOldSchoolMethodDecoration must only be called in a class scope.
-                assert target_obj.kind is model.DocumentableKind.METHOD
+                # _handleOldSchoolMethodDecoration must only be called in a class scope,
+                # the function may already have been turned into a static or class method.
+                assert target_obj.kind in (model.DocumentableKind.METHOD,
+                                           model.DocumentableKind.STATIC_METHOD,
+                                           model.DocumentableKind.CLASS_METHOD)
 
                 if func_name == 'staticmethod':
                     target_obj.kind = model.DocumentableKind.STATIC_METHOD
